@@ -68,6 +68,26 @@ theorem negotiate_peerAs (o t : OpenMsg) :
       then (asn4Of t.caps).getD t.myAs else t.myAs := by
   simp only [negotiate, negotiateSets, capSet_asn4]
 
+theorem negotiate_operational (o t : OpenMsg) :
+    (negotiate o t).operational = (o.caps.contains .operational && t.caps.contains .operational) := by
+  simp only [negotiate, negotiateSets, capSet_operational]
+
+theorem negotiate_linkLocal (o t : OpenMsg) :
+    (negotiate o t).linkLocal = (o.caps.contains .linkLocal && t.caps.contains .linkLocal) := by
+  simp only [negotiate, negotiateSets, capSet_linkLocal]
+
+/-- the multisession verdict on the raw capability lists (MP lists as the dict holds them) -/
+theorem negotiate_multisession (o t : OpenMsg) :
+    (negotiate o t).multisession =
+      if ((o.caps.any (isMs false) && t.caps.any (isMs false)) || (o.caps.any (isMs true) && t.caps.any (isMs true))) = true then
+        if (!(o.caps.any (isMs false) && t.caps.any (isMs false))) = true then .crash
+        else match (capSet t.caps).mp with
+          | none => .crash
+          | some rm => if (capSet o.caps).mp.getD [] ≠ rm then .err 2 8 else .yes
+      else if o.caps.any (isMs false) = true then .err 2 9 else .no := by
+  simp only [negotiate, negotiateSets, capSet_multisession, capSet_multisessionCisco]
+  rfl
+
 /-! ### ADD-PATH octets: the bit-mask reading and the RFC 7911 reading agree on 0..3 -/
 
 theorem sendBit_eq_rfc (sr : Nat) (h : sr ≤ 3) : sendBit sr = rfcSend sr := by
